@@ -594,7 +594,7 @@ func runC12(c *Ctx) {
 	for _, r := range rows {
 		if !r.used {
 			c.SetConfig("tables")
-			c.Stale("gomaxprocs:"+r.typ+":"+r.loc)
+			c.Stale("gomaxprocs:" + r.typ + ":" + r.loc)
 		}
 	}
 }
